@@ -68,6 +68,11 @@ func checkC03(r *Run) {
 
 	c03Readmsg(r, rm)
 	c03ReadFcall(r, rf, rm)
+	ng := 0
+	for _, f := range []*ssa.Function{rm, rf} {
+		ng += errorGatesSuccess(r, f, "error-gates-success")
+	}
+	r.Floor("error-gates-success", ng, 4, "error-returning steps in readmsg/ReadFcall")
 	c02OverflowExposed(r)
 	// frame isolation continues through the decoder: every decoded field is read into storage made for it (the
 	// codec-grammar rules: decode(*[]byte) is make + read), never a view of the channel's reused read buffer
@@ -497,17 +502,15 @@ func c03ReadFcall(r *Run, rf, rm *ssa.Function) {
 		if len(ret.Results) != 1 {
 			continue
 		}
-		flds, named, ok := compositeFields(ret.Results[0])
-		if !ok || named == nil || named.Obj().Name() != "overflowErr" {
+		l, isOv, hasSize := overflowSize(r.P, fa, ret.Results[0], 0)
+		if !isOv {
 			continue
 		}
 		nOv++
-		sz := flds["size"]
-		if sz == nil {
+		if !hasSize {
 			r.Bad("overflow-amount", "ReadFcall: overflow error reports n - len(rdbuf)", ret.Pos(), "overflow error without size")
 			continue
 		}
-		l := fa.Lin(sz)
 		r.Check(l.Equal(ln.Sub(bufLen)), "overflow-amount", "ReadFcall: overflow error reports n - len(rdbuf)", ret.Pos(), "reports "+l.String()+", expected "+ln.Sub(bufLen).String())
 		facts := fa.FactsAt(ret, ln, bufLen)
 		r.Check(Entails(facts, bufLen.Sub(ln).Add(linConst(1))), "overflow-guard", "ReadFcall: overflow reported only when n > len(rdbuf)", ret.Pos(),
